@@ -469,9 +469,9 @@ def eval_case(case):
 
 
 def shards(ctx):
-    for c in ("asm", "c64", "c32"):
+    for c in ("asm", "c64", "c32", "o0"):
         build.build(c)
-    out = []
+    out = [{"sub": "lq", "cfg": "o0"}, {"sub": "params", "cfg": "o0", "l": 2, "sig": True}]
     # params / master key for every l and flag, on every back end (struct layouts differ between word sizes)
     for cfg in ("asm", "c64", "c32"):
         for l in (0, 1, 2, 3):
